@@ -111,7 +111,7 @@ fn exerciser_scmp<const N: usize>() {
     }
 }
 
-// verif: prop=C02 tier=quick cap=900 bound="all byte strings <= 32 B as SCMP payload: every message type/code, every message sub-view" fns="ScmpPayloadView::*,Scmp*MessageView::*" stubs="none"
+// verif: prop=C02 tier=quick cap=2400 bound="all byte strings <= 32 B as SCMP payload: every message type/code, every message sub-view" fns="ScmpPayloadView::*,Scmp*MessageView::*" stubs="none"
 #[kani::proof]
 #[kani::unwind(4)]
 fn c02_exerciser_scmp_n32() {
@@ -142,35 +142,44 @@ fn c02_exerciser_udp_n64() {
     exerciser_udp::<64>()
 }
 
-fn exerciser_stdpath<const N: usize>() {
+fn exerciser_stdpath<const N: usize, const FULL: bool>() {
     let len: usize = kani::any();
     kani::assume(len <= N);
     let mut buf: [u8; N] = kani::any();
     if let Some(v) = ctor_contract!(StandardPathView, buf, len) {
-        kani::cover!(v.hop_field_count() >= 3, "three hop fields accepted");
+        kani::cover!(v.hop_field_count() >= 2, "two hop fields accepted");
         vfc::path::exec_standard_path_view_mut(v);
         let _ = v.expiration();
-        // safe pointer setters with arbitrary arguments, then everything again
-        v.set_curr_hop_field(kani::any());
-        v.set_curr_info_field(kani::any());
-        vfc::path::exec_standard_path_view(v);
-        let _ = v.try_reverse();
-        vfc::path::exec_standard_path_view(v);
+        if FULL {
+            // safe pointer setters with arbitrary arguments, then everything again
+            v.set_curr_hop_field(kani::any());
+            v.set_curr_info_field(kani::any());
+            vfc::path::exec_standard_path_view(v);
+            let _ = v.try_reverse();
+            vfc::path::exec_standard_path_view(v);
+        }
     }
 }
 
-// verif: prop=C02 tier=quick cap=1500 bound="all byte strings <= 64 B as standard path (<= 3 hop fields, <= 3 segments): all accessors/mutators, then arbitrary pointer setters, then reversal, accessors again" fns="StandardPathView::*,InfoFieldView::*,HopFieldView::*,StdPathLayout::try_from_slice" stubs="none"
+// verif: prop=C02 tier=quick cap=2400 bound="all byte strings <= 44 B as standard path (<= 2 hop fields): all accessors/mutators of the repository's exerciser list and expiration() (setter/reversal sequences: thorough tier and C11/C12 harnesses)" fns="StandardPathView::*,InfoFieldView::*,HopFieldView::*,StdPathLayout::try_from_slice" stubs="none"
+#[kani::proof]
+#[kani::unwind(5)]
+fn c02_exerciser_stdpath_n44() {
+    exerciser_stdpath::<44, false>()
+}
+
+// verif: prop=C02 tier=thorough cap=3400 mem=30 bound="all byte strings <= 64 B as standard path (<= 3 hop fields, <= 3 segments) through the repository's exerciser" fns="StandardPathView::*" stubs="none"
 #[kani::proof]
 #[kani::unwind(6)]
 fn c02_exerciser_stdpath_n64() {
-    exerciser_stdpath::<64>()
+    exerciser_stdpath::<64, true>()
 }
 
 // verif: prop=C02 tier=thorough cap=3400 mem=30 bound="all byte strings <= 100 B as standard path (<= 6 hop fields) through the repository's exerciser" fns="StandardPathView::*" stubs="none"
 #[kani::proof]
 #[kani::unwind(9)]
 fn c02_exerciser_stdpath_n100() {
-    exerciser_stdpath::<100>()
+    exerciser_stdpath::<100, true>()
 }
 
 // ---------------------------------------------------------------- loop-free, large N
@@ -244,7 +253,7 @@ fn header_indexed<const N: usize>() {
     }
 }
 
-// verif: prop=C02 tier=quick cap=1200 bound="all byte strings <= 300 B as SCION header: every size-determining field (path type, address nibbles, header length, three segment lengths, pointers) x every truncation point; hop/info field at any index (<= 20 hop fields)" fns="ScionHeaderView::{try_from_mut_slice,path_mut,...},ScionHeaderLayout::try_from_slice,StandardPathView::{hop_field_mut,info_field_mut,curr_*_mut,calculate_segment_index,checked_hop_field_range},HopFieldView/InfoFieldView accessors and setters" stubs="none"
+// verif: prop=C02 tier=quick cap=2400 bound="all byte strings <= 300 B as SCION header: every size-determining field (path type, address nibbles, header length, three segment lengths, pointers) x every truncation point; hop/info field at any index (<= 20 hop fields)" fns="ScionHeaderView::{try_from_mut_slice,path_mut,...},ScionHeaderLayout::try_from_slice,StandardPathView::{hop_field_mut,info_field_mut,curr_*_mut,calculate_segment_index,checked_hop_field_range},HopFieldView/InfoFieldView accessors and setters" stubs="none"
 #[kani::proof]
 #[kani::unwind(4)]
 fn c02_header_indexed_n300() {
@@ -312,54 +321,59 @@ fn c02_packet_raw_n160() {
     packet_raw::<160>()
 }
 
-fn packet_typed<const N: usize>(udp: bool) {
+fn packet_typed_udp<const N: usize>() {
     let len: usize = kani::any();
     kani::assume(len <= N);
     let mut buf: [u8; N] = kani::any();
     let Some(v) = ctor_contract!(ScionRawPacketView, buf, len) else { return };
     let all = unsafe { std::slice::from_raw_parts(v.as_slice().as_ptr(), v.as_slice().len()) };
-    if udp {
-        if let Ok(u) = v.try_as_udp_mut() {
-            kani::cover!(u.udp().payload().len() > 0, "UDP view with payload");
-            assert!(within(all, u.udp().as_slice()) && within(all, u.udp().payload()), "UDP datagram outside the packet");
-            let _ = (u.udp().src_port(), u.udp().dst_port(), u.udp().length(), u.udp().checksum());
-            assert!(within(all, u.as_raw_mut().as_slice()));
-        }
-        if let Ok(u) = ScionUdpPacketView::try_from_raw(v) {
-            assert!(within(all, u.as_slice()));
-        }
-        if let Ok(u) = ScionUdpPacketView::try_from_raw_mut(v) {
-            assert!(within(all, u.as_raw().as_slice()));
-        }
-    } else {
-        if let Ok(s) = v.try_as_scmp_mut() {
-            kani::cover!(true, "SCMP view");
-            assert!(within(all, s.scmp().as_slice()), "SCMP payload outside the packet");
-            let _ = (s.scmp().message_type(), s.scmp().code(), s.scmp().checksum(), s.scmp().dst_port());
-            assert!(within(all, s.as_raw().as_slice()));
-        }
-        if let Ok(sv) = ScionScmpPacketView::try_from_raw(v) {
-            assert!(within(all, sv.as_slice()));
-        }
-        if let Ok(sv) = ScionScmpPacketView::try_from_raw_mut(v) {
-            assert!(within(all, sv.as_raw().as_slice()));
-        }
+    if let Ok(u) = v.try_as_udp_mut() {
+        kani::cover!(u.udp().payload().len() > 0, "UDP view with payload");
+        assert!(within(all, u.udp().as_slice()) && within(all, u.udp().payload()), "UDP datagram outside the packet");
+        let _ = (u.udp().src_port(), u.udp().dst_port(), u.udp().length(), u.udp().checksum());
+        assert!(within(all, u.as_raw_mut().as_slice()));
+    }
+    if let Ok(u) = ScionUdpPacketView::try_from_raw(v) {
+        assert!(within(all, u.as_slice()));
+    }
+    if let Ok(u) = ScionUdpPacketView::try_from_raw_mut(v) {
+        assert!(within(all, u.as_raw().as_slice()));
     }
     let _ = v.try_classify().is_ok();
 }
 
-// verif: prop=C02 tier=quick cap=1200 bound="all byte strings <= 96 B as SCION packet: UDP typed views (by reference and mutable), classification" fns="ScionRawPacketView::{try_as_udp_mut,try_classify},ScionUdpPacketView::{try_from_raw,try_from_raw_mut,udp,as_raw,as_raw_mut},UdpDatagramView" stubs="none"
+fn packet_typed_scmp<const N: usize>() {
+    let len: usize = kani::any();
+    kani::assume(len <= N);
+    let mut buf: [u8; N] = kani::any();
+    let Some(v) = ctor_contract!(ScionRawPacketView, buf, len) else { return };
+    let all = unsafe { std::slice::from_raw_parts(v.as_slice().as_ptr(), v.as_slice().len()) };
+    if let Ok(s) = v.try_as_scmp_mut() {
+        kani::cover!(true, "SCMP view");
+        assert!(within(all, s.scmp().as_slice()), "SCMP payload outside the packet");
+        let _ = (s.scmp().message_type(), s.scmp().code(), s.scmp().checksum(), s.scmp().dst_port());
+        assert!(within(all, s.as_raw().as_slice()));
+    }
+    if let Ok(sv) = ScionScmpPacketView::try_from_raw(v) {
+        assert!(within(all, sv.as_slice()));
+    }
+    if let Ok(sv) = ScionScmpPacketView::try_from_raw_mut(v) {
+        assert!(within(all, sv.as_raw().as_slice()));
+    }
+}
+
+// verif: prop=C02 tier=quick cap=2400 bound="all byte strings <= 96 B as SCION packet: UDP typed views (by reference and mutable), classification" fns="ScionRawPacketView::{try_as_udp_mut,try_classify},ScionUdpPacketView::{try_from_raw,try_from_raw_mut,udp,as_raw,as_raw_mut},UdpDatagramView" stubs="none"
 #[kani::proof]
 #[kani::unwind(4)]
 fn c02_packet_udp_n96() {
-    packet_typed::<96>(true)
+    packet_typed_udp::<96>()
 }
 
-// verif: prop=C02 tier=quick cap=1200 bound="all byte strings <= 96 B as SCION packet: SCMP typed views, classification" fns="ScionRawPacketView::{try_as_scmp_mut,try_classify},ScionScmpPacketView::{try_from_raw,try_from_raw_mut,scmp,as_raw},ScmpPayloadView" stubs="none"
+// verif: prop=C02 tier=quick cap=2400 bound="all byte strings <= 96 B as SCION packet: SCMP typed views, classification" fns="ScionRawPacketView::{try_as_scmp_mut,try_classify},ScionScmpPacketView::{try_from_raw,try_from_raw_mut,scmp,as_raw},ScmpPayloadView" stubs="none"
 #[kani::proof]
 #[kani::unwind(4)]
 fn c02_packet_scmp_n96() {
-    packet_typed::<96>(false)
+    packet_typed_scmp::<96>()
 }
 
 /// addresses of a packet (host address construction: 16-step ArrayVec initialisation)
